@@ -728,3 +728,55 @@ Proof.
   intros k. replace (a_fun a k) with 0%nat by (destruct k as [|[|k]]; reflexivity).
   split; [vm_compute; repeat constructor|vm_compute; reflexivity].
 Qed.
+
+(** ** Closed forms of the guard for three of the generated steps (Proofs/C08CompositeSteps.v): conditions on the
+    ARGUMENTS only, in every state that satisfies C07's invariant, for every function -- leaf or composite.
+    (For the other steps the guard stays the computed [StepsFunc.ok_prog].) *)
+From PV Require Proofs.C08CompositeSteps.
+
+(** proximal_step(x0, F, gamma): F exists, x0 has unique keys over existing leaf points, gamma <> 0 *)
+Theorem C08_composite_proximal_step_preserves_invariant :
+  forall (x0 : pdict) (F : nat) (gamma : Q) (s : Func.state) (cs : StepsFunc.clog),
+  C07Inv.inv s -> (F < C07Inv.nfun s)%nat -> Func.pwf_b s x0 = true -> ~ (gamma == 0)%Q ->
+  C07Inv.inv (StepsFunc.run_state prog_proximal_step (mk_args [x0] [F] [gamma] []) (s, cs)).
+Proof. exact C08CompositeSteps.proximal_step_composite_inv. Qed.
+Print Assumptions C08_composite_proximal_step_preserves_invariant.
+
+(** ... and the triple (x0 - gamma gx, gx, fx) it records on a composite F is the F-weighted sum of the samples
+    the distribution makes the terms of F record at that point *)
+Theorem C08_composite_proximal_step_sample_is_weighted_sum :
+  forall (x0 : pdict) (F : nat) (gamma : Q) (s : Func.state) (cs : StepsFunc.clog),
+  C07Inv.inv s -> (F < C07Inv.nfun s)%nat -> Func.f_leaf (Func.getf s F) = false ->
+  Func.pwf_b s x0 = true -> ~ (gamma == 0)%Q ->
+  let s' := StepsFunc.run_state prog_proximal_step (mk_args [x0] [F] [gamma] []) (s, cs) in
+  let gx := [(Func.pt_ctr s, 1%Q)] in
+  let t := (prune (p_sub x0 (p_scal gamma gx)), prune gx, prune [(KF (Func.ex_ctr s), 1%Q)]) in
+  In t (Func.f_pts (Func.getf s' F)) /\ C08Composite.weighted_sum_at s' F t.
+Proof. exact C08CompositeSteps.proximal_step_composite_sample. Qed.
+Print Assumptions C08_composite_proximal_step_sample_is_weighted_sum.
+
+(** inexact_gradient_step(x0, F, gamma, eps, notion), every notion (valid, default, invalid): F exists, x0 has
+    unique keys over existing leaf points and no explicit zero coefficient (F-C07b) -- exactly the guard *)
+Theorem C08_composite_inexact_gradient_step_guard :
+  forall (prog : program) (x0 : pdict) (F : nat) (gamma eps : Q) (s : Func.state) (cs : StepsFunc.clog),
+  prog = prog_inexact_gradient_step_absolute \/ prog = prog_inexact_gradient_step_relative \/
+  prog = prog_inexact_gradient_step_invalid ->
+  StepsFunc.ok_prog prog (mk_args [x0] [F] [gamma; eps] []) (s, cs) =
+  (Func.in_range s F && Func.pwf_b s x0 && Func.allnz_b x0)%bool.
+Proof. exact C08CompositeSteps.inexact_gradient_guard. Qed.
+Print Assumptions C08_composite_inexact_gradient_step_guard.
+
+Theorem C08_composite_inexact_gradient_step_preserves_invariant :
+  forall (opt : string) (x0 : pdict) (F : nat) (gamma eps : Q) (s : Func.state) (cs : StepsFunc.clog),
+  C07Inv.inv s -> (F < C07Inv.nfun s)%nat -> Func.pwf_b s x0 = true -> Func.allnz_b x0 = true ->
+  C07Inv.inv (StepsFunc.run_state (step_program "inexact_gradient_step" opt) (mk_args [x0] [F] [gamma; eps] []) (s, cs)).
+Proof. exact C08CompositeSteps.inexact_gradient_step_composite_inv. Qed.
+Print Assumptions C08_composite_inexact_gradient_step_preserves_invariant.
+
+(** linear_optimization_step(dir, F): F exists, dir has unique keys *)
+Theorem C08_composite_linear_optimization_step_preserves_invariant :
+  forall (dir : pdict) (F : nat) (s : Func.state) (cs : StepsFunc.clog),
+  C07Inv.inv s -> (F < C07Inv.nfun s)%nat -> NoDupKeys nat dir ->
+  C07Inv.inv (StepsFunc.run_state prog_linear_optimization_step (mk_args [dir] [F] [] []) (s, cs)).
+Proof. exact C08CompositeSteps.linear_optimization_step_composite_inv. Qed.
+Print Assumptions C08_composite_linear_optimization_step_preserves_invariant.
